@@ -1,0 +1,10 @@
+//go:build verif
+
+package genesis
+
+// Contracts for the deductive checks in /verif (tool: govc). Comment-only; build tag `verif`.
+
+// hashing of the genesis document: no claim (frame only); genesis input is operator input, outside the properties
+//@ func (ga *GenesisAppState) Hash()
+//@   trusted
+//@   modifies everything
